@@ -402,6 +402,30 @@ def err_family(rng, n):
         out.append("".join(parts))
     return out
 
+
+# ----------------------------------------------------------------------------- deep nesting family (C01, C19)
+
+DEEP_OPEN = ["%eval(", "%sysevalf(", "%m(", "%str(", "%nrstr(", "%sysfunc(f(", "%upcase(", "%scan(a,", "%substr(a,1,", "(", "%m(a=",
+             "\"%m(", "%if (", "%do i=%eval(", "%let a=%m(", "%put %str(", "%macro m(a=(", "%qsysfunc(g(%eval("]
+DEEP_TAIL = ["", "1", "1 %put done; data a; run;", ";", "%end;", "%let b=1;", ")", "\"", "1)", " %mend;", "\n", "é", ",", "%*c;", "/*c*/"]
+
+
+def deep_family(rng, n):
+    out = []
+    for op in DEEP_OPEN:
+        for k in (20, 21, 41):
+            for tail in ("", "1 %put done; data a; run;"):
+                out.append("%put " + op * k + tail)
+    for _ in range(n):
+        k = rng.choice([3, 8, 15, 19, 20, 21, 22, 30, 39, 40, 41, 42])
+        if rng.random() < 0.5:
+            body = rng.choice(DEEP_OPEN) * k
+        else:
+            body = "".join(rng.choice(DEEP_OPEN) for _ in range(k))
+        closers = ")" * rng.choice([0, 0, 1, k // 2, k])
+        out.append(rng.choice(["", "%put ", "x=", "%let v=", "%macro q; "]) + body + rng.choice(DEEP_TAIL) + closers + rng.choice(DEEP_TAIL))
+    return out
+
 # ----------------------------------------------------------------------------- C18 family
 
 SEP_STATS = ["%let a=1;", "%put x;", "%if 1 %then", "%else", "%do;", "%end;", "%macro m;", "%mend;", "%global g;",
